@@ -9,7 +9,7 @@
 (*  mmap family  : entry sizes 24/32/40, <= MaxEnt entries, every type of {0..6, 2^31, 2^32-1}        *)
 (*  cmd family   : every command line over {'a', '=', ' ', TAB} up to CmdLen characters              *)
 (*  elf family   : <= MaxSec sections, empty / non-empty, every name offset, string table anywhere    *)
-(*  fb family    : indexed / RGB / EGA / unknown type                                                *)
+(*  fb family    : indexed (palettes of 0, 1, 2, 4 colours) / RGB / EGA / unknown type                *)
 EXTENDS Mb2Model
 CONSTANTS MaxEnt, CmdLen, MaxSec
 
@@ -29,7 +29,9 @@ CmdSeeds(maxLen) == { <<Cmd(s)>> : s \in UNION {[1..n -> Chars] : n \in 0..maxLe
 Fb(ft, bpp, ci) == [k |-> "fb", addr |-> <<0, 0, 64768, 0>>, pitch |-> <<0, 4096>>, w |-> <<0, 1024>>, h |-> <<0, 768>>,
                     bpp |-> bpp, ft |-> ft, ci |-> ci]
 FbSeeds == { <<Fb(1, 32, <<16, 8, 8, 8, 0, 8>>)>>, <<Fb(1, 16, <<11, 5, 5, 6, 0, 5>>)>>, <<Fb(1, 24, <<0, 8, 8, 8, 16, 8, 7, 7>>)>>,
-             <<Fb(0, 8, <<2, 0, 0, 0, 1, 2, 3, 4, 5, 6>>)>>, <<Fb(2, 16, <<>>)>>, <<Fb(3, 0, <<>>)>>, <<Fb(255, 255, <<9, 9, 9, 9, 9, 9>>)>> }
+             \* indexed: 16-bit colour count + 3 bytes per palette entry, sitting where an RGB layout would be
+             <<Fb(0, 8, <<0, 0>>)>>, <<Fb(0, 8, <<1, 0, 255, 128, 1>>)>>, <<Fb(0, 8, <<2, 0, 16, 8, 8, 8, 0, 8>>)>>,
+             <<Fb(0, 4, <<4, 0, 1, 2, 3, 4, 5, 6, 7, 8, 9, 10, 11, 12>>)>>, <<Fb(2, 16, <<>>)>>, <<Fb(2, 16, <<16, 8, 8, 8, 0, 8>>)>>, <<Fb(3, 0, <<>>)>>, <<Fb(255, 255, <<9, 9, 9, 9, 9, 9>>)>> }
 
 \* string table "\0.a\0bc\0": names "" (0), ".a" (1), "a" (2), "bc" (4), "" (6)
 StrTab == <<0, 46, 97, 0, 98, 99, 0>>
@@ -48,6 +50,7 @@ MCOrderMenu == { Cmd(<<97, 61, 97>>), Cmd(<<>>),
                  Mmap(24, <<<<0, 1>>>>), Mmap(32, <<>>),
                  Fb(1, 32, <<16, 8, 8, 8, 0, 8>>), Fb(2, 16, <<>>),
                  Elf(0, <<StrSec, Sec(1, <<0, 6>>, 2, W(4096))>>), Elf(0, <<StrSec>>), Elf(0, <<>>),
-                 Other(2, 2), Other(21, 3), Other(4, 8), Other(10, 7), Other(3, 5), Other(7, 0), Other(262, 4) }
+                 Fb(0, 8, <<2, 0, 16, 8, 8, 8, 0, 8>>),
+                 Other(2, 2), Other(21, 3), Other(10, 7), Other(3, 5), Other(7, 0), Other(262, 4) }
 MCSeeds == MmapSeeds(MaxEnt) \cup CmdSeeds(CmdLen) \cup FbSeeds \cup ElfSeeds(MaxSec)
 ====
